@@ -95,6 +95,13 @@ def _check_runtime_types(node: ASTNode, type_map: Mapping[Field, FieldTypeInfo])
     return incorrect_fields
 
 
+def _escape_digest_value(text: str) -> str:
+    """Escape the characters that delimit a value in the digest input, so that
+    a property value can never spell the end of its own entry (and the start
+    of another field's entry)."""
+    return text.replace("\\", "\\\\").replace(")", "\\)")
+
+
 NODE_REGISTRY: weakref.WeakValueDictionary[str, ASTNode] = weakref.WeakValueDictionary()
 """Registry of all node objects."""
 
@@ -228,7 +235,7 @@ class ASTNode(DataClassSerializeMixin):
             sort_keys=True,
         ):
             cid_data += f":{f.name}="
-            cid_data += f"{type(val)}({val!s})"
+            cid_data += f"{type(val)}({_escape_digest_value(str(val))})"
 
         # Full ID must include origin's (current node and children)
         id_data = f"{self.__class__.__name__}@{self.origin.fqn}{cid_data}"
